@@ -286,6 +286,12 @@ inductive Op where
   | reset (i : Nat)
   deriving Repr, DecidableEq
 
+/-- One pass of the background regeneration loop of a store built with `regeneration_rate = r > 0`
+    (`_start_regeneration`: `while not stopped: sleep(1); self.regenerate(int(self.regeneration_rate))`): for the
+    ledger the thread is one more caller, each pass is the operation `regenerate(int(r))` in ATP.  A store built with
+    `regeneration_rate = 0` (the default) has no such thread. -/
+def Op.tick (i : Nat) (intRate : Nat) : Op := .regenerate i intRate .atp
+
 /-- What the caller sees. -/
 inductive Ret where
   | bool (b : Bool)
